@@ -59,6 +59,9 @@ def gen_cases(tier, seed):
         if not se_:
             dn += ["s", "t"]; de += [("s", "a"), ("b", "t")]
         cases.append({"covlen": None, "lengths": [], "spec": gen.spec(dn, de), "cyc": True, "node": False, "ignore": [], "starts": st_, "ends": en_, "cons": [], "cov": 1.0})
+    # corpus (thorough tier, seed 3): HiGHS' presolve declares the k = 6 model infeasible (k = 5, 7 and presolve='off' are fine): known finding
+    pe_ = [("a.0", "v.0"), ("a_expanded", "v.0"), ("a_expanded", "sink"), ("a", "sink"), ("v.0", "sink"), ("v.0", "t"), ("v.0", "10"), ("sink", "t"), ("sink", "10")]
+    cases.append({"covlen": None, "lengths": [], "spec": gen.spec(["a.0", "a_expanded", "a", "v.0", "sink", "t", "10"], pe_), "cyc": True, "node": False, "ignore": [], "starts": [], "ends": [], "cons": [], "cov": 1.0})
     # a long simple path (more nodes than Python's default recursion limit): one walk covers it
     cases.append({"kind": "longpath", "n": 1100})
     n = 500 if tier == "quick" else 5000
@@ -261,7 +264,15 @@ def run_case(case):
             if miss:
                 viol.append({"sig": f"C09/MinPathCover{kind}/element-not-covered{tagstr}", "msg": f"{miss[:4]} not on any returned route {routes}; {desc}"})
             if len(routes) != w:
-                viol.append({"sig": f"C09/MinPathCover{kind}/" + ("not-minimum" if len(routes) > w else "below-reference") + tagstr, "msg": f"{len(routes)} routes, reference minimum {w}; {desc}"})
+                mech = tagstr
+                if len(routes) > w:
+                    r2 = models.run({"cls": "MinPathCover" + kind, "spec": case["spec"], "kw": kw}, solver_options=dict(SO, presolve="off"))
+                    if r2.get("solved") and len(models.routes_of(r2["sol"])) == w:
+                        mech = "/solver-presolve-declares-feasible-model-infeasible"
+                if mech.startswith("/solver-presolve"):
+                    viol.append({"sig": f"C09/solver-presolve-defect/MinPathCover{kind}/not-minimum", "msg": f"{len(routes)} routes with presolve on, the minimum {w} with presolve='off'; {desc}"})
+                else:
+                    viol.append({"sig": f"C09/MinPathCover{kind}/" + ("not-minimum" if len(routes) > w else "below-reference") + mech, "msg": f"{len(routes)} routes, reference minimum {w}; {desc}"})
             for c in cons:
                 cs = set(c)
                 if case.get("covlen"):
@@ -301,7 +312,15 @@ def run_case(case):
             if "exc" in r:
                 viol.append({"sig": f"C09/kPathCover{kind}/{r['stage']}-raises/{r['exc'][0]}{tagstr}", "msg": f"k={k}: {r['exc']}; {desc}"}); break
             if bool(r["solved"]) != (k >= w):
-                viol.append({"sig": f"C09/kPathCover{kind}/" + ("unsolved-for-k>=width" if k >= w else "solved-for-k<width") + tagstr, "msg": f"k={k}, width {w}: solved={r['solved']}; {desc}"}); break
+                mech = tagstr
+                if k >= w:
+                    # classification (as in C04/C05/C07/C15): the same model is solved as soon as HiGHS' presolve is switched off
+                    r2 = models.run({"cls": "kPathCover" + kind, "spec": case["spec"], "kw": kw2}, solver_options=dict(SO, presolve="off"), want_solution=False)
+                    if r2.get("solved"):
+                        mech = "/solver-presolve-declares-feasible-model-infeasible"
+                if mech.startswith("/solver-presolve"):
+                    viol.append({"sig": f"C09/solver-presolve-defect/kPathCover{kind}/unsolved-for-k>=width", "msg": f"k={k}, width {w}: kInfeasible with presolve on, solved with presolve='off'; {desc}"}); break
+                viol.append({"sig": f"C09/kPathCover{kind}/" + ("unsolved-for-k>=width" if k >= w else "solved-for-k<width") + mech, "msg": f"k={k}, width {w}: solved={r['solved']}; {desc}"}); break
     side += [s for s, _ in M.ROUTES.drain()]
     seen = set(); out = []
     for v in viol:
